@@ -358,6 +358,18 @@ def concrete(v):
 
 
 def run_aggs(case):
+    out = _run_aggs(case)
+    if not out.failures and any(a[1] == "group_concat" for a in case["aggs"]) and len(case["data"]["default"]) > 1:
+        # the order in which the values of a group arrive is the store's; the same data put in the other way round shows a
+        # concatenation both ways round
+        rev = dict(case, data=dict(case["data"], default=case["data"]["default"][::-1]))
+        out2 = _run_aggs(rev)
+        if out2.failures:
+            return out2
+    return out
+
+
+def _run_aggs(case):
     out = Out()
     pat = case["pattern"]
     if not c04.valid(pat):
